@@ -94,16 +94,34 @@ def one(M, rec, rng, g, desc, pars, st):
                         rec.violation(f"{PROP}:compact={compact}: next queue != queue + T (demand - reported origin flow) [{o['kind']},{o['eq']}]",
                                       dict(ctx, origin=oid, w_next=xn[oid]["w"][0], expected=exp, reported_flow=qo[oid]))
                         return
-                # density balance of the fed link: q0 = (rho+_1 - rho_1) lam L / T + q_1 = share of (entering flows + q_o)
-                n = o["node"]
+                # the reported flow is the one that entered the density balance of the fed link: change
+                # ONLY this origin's own demand/queue/control; whatever the node does with the entering
+                # links cancels in the difference:  d(rho+_1) lam L / T  ==  d(reported q_o)
+                if o["kind"] == "ideal":
+                    continue
+                v2 = {k_: {n_: (list(x_) if isinstance(x_, list) else x_) for n_, x_ in d_.items()} for k_, d_ in vals.items()}
+                v2[oid]["d"] = vals[oid]["d"] * 0.5 + 37.0
+                v2[oid]["w"] = vals[oid]["w"] + 3.0
+                if "r" in v2[oid]:
+                    v2[oid]["r"] = 0.35 if vals[oid]["r"] > 0.6 else 0.9
+                if "q" in v2[oid]:
+                    v2[oid]["q"] = vals[oid]["q"] * 0.5 + 11.0
+                if "v_ctrl" in v2[oid] and o["kind"] == "main":
+                    v2[oid]["v_ctrl"] = 25.0 if vals[oid]["v_ctrl"] > 40 else 90.0
+                try:
+                    xn2, q2, qo2 = case.call(F, v2, compact, True)
+                except Exception:
+                    continue
                 kk = lk["lam"] * lk["L"] / T
-                q0 = (xn[lk["id"]]["rho"][0] - vals[lk["id"]]["rho"][0]) * kk + q[lk["id"]][0]
-                tot = qo[oid] + sum(q[m["id"]][-1] for m in ins[n])
-                mag = (abs(xn[lk["id"]]["rho"][0]) + abs(vals[lk["id"]]["rho"][0])) * kk + abs(q[lk["id"]][0]) + abs(tot)
+                d_in = (xn2[lk["id"]]["rho"][0] - xn[lk["id"]]["rho"][0]) * kk
+                d_qo = qo2[oid] - qo[oid]
+                mag = (abs(xn2[lk["id"]]["rho"][0]) + abs(xn[lk["id"]]["rho"][0])) * kk + abs(qo2[oid]) + abs(qo[oid])
                 rec.count("density_balance_checks")
-                if not close(q0, tot, mag):
+                if abs(d_qo) > 1e-6 * (1 + mag):
+                    rec.count("density_balance_checks_with_flow_change")
+                if not close(d_in, d_qo, mag):
                     rec.violation(f"{PROP}:compact={compact}: reported origin flow is not the one used in the density update of the fed link [{o['kind']},{o['eq']}]",
-                                  dict(ctx, origin=oid, inferred_inflow=q0, entering_plus_reported=tot))
+                                  dict(ctx, origin=oid, change_of_inferred_inflow=d_in, change_of_reported_flow=d_qo, second_point=v2[oid]))
                     return
             if rec.counters["function_evaluations"] == 4:
                 rec.sample({"desc": desc, "vals": vals, "compact": compact, "q": q, "q_o": qo})
@@ -129,6 +147,7 @@ def finish(M, rec, write=True):
             for c in (0, 1, 2):
                 rec.gate(any(s.startswith(f"('{kd}',") and s.endswith(f", {c})") for s in ok), f"origin kind {kd} never seen at compact={c}")
         rec.gate(any("('T',)" in s for s in rec.cover.get("configs", set())), "symbolic T never passed through parameters")
+        rec.gate(rec.counters.get("density_balance_checks_with_flow_change", 0) > 0, "no origin whose flow changed between the paired points")
         rec.gate(rec.counters.get("symbolic_step_failed", 0) + rec.counters.get("compile_failed", 0)
                  <= 0.02 * max(1, rec.counters.get("function_evaluations", 0)), "too many cases failed to compile (see C07)")
     return rec.finish(
